@@ -94,6 +94,14 @@ func cliN(i int) *Program {
 	if i%2 == 1 {
 		b.Set(0, "OnlyASet", ItemRef(fa.ID))
 	}
+	switch i % 4 {
+	case 2:
+		// no injector, but blank and ordinary imports and an init function
+		b.P.Extra = map[string]string{"0/side.go": "package app\n\nimport (\n\t_ \"embed\"\n\t\"strings\"\n\t_ \"unsafe\"\n)\n\nvar Upper = strings.ToUpper(\"x\")\n\nfunc init() { _ = Upper }\n"}
+	case 3:
+		// a file carrying the wireinject constraint, a blank import and declarations, but no injector
+		b.P.Extra = map[string]string{"0/notinjector.go": "//go:build wireinject\n// +build wireinject\n\npackage app\n\nimport (\n\t_ \"embed\"\n\n\t\"github.com/google/wire\"\n)\n\nvar TaggedSet = wire.NewSet(NewA)\n\nfunc helperOnly() int { return 1 }\n"}
+	}
 	b.P.Note = "cli-N"
 	return b.P
 }
@@ -242,9 +250,9 @@ func genScenario(e *Env, i int) cliScenario {
 			}
 			cp.Prior = []string{"absent", "stale", "garbage"}[r.Intn(3)]
 		case 'N':
-			cp = cliPkg{P: cliN((i + usedN) % 2), Class: 'N'}
+			cp = cliPkg{P: cliN((i + usedN) % 4), Class: 'N'}
 			usedN++
-			if usedN > 2 {
+			if usedN > 4 {
 				continue
 			}
 			cp.Prior = []string{"absent", "stale", "garbage"}[r.Intn(3)]
